@@ -185,6 +185,12 @@ KP_ALPHAS = [(0, 0, 0), (1, 0, 0), (0, 1, 0), (0, 0, 1), (2, 0, 0), (0, 2, 0), (
              (3, 0, 0), (1, 1, 1), (0, 2, 1)]
 
 
+# SystemKP.__init__ needs finite-difference shells (find_shells) even when analytic derivatives are given; for
+# strongly skewed cells that search fails with a TypeError (subject of C22, observed with the 'generic' family),
+# so the k.p systems here live on rectangular cells (or the default cubic k-box of size 2*kmax)
+KP_LATTICES = ["sc", "tetragonal", "orthorhombic"]
+
+
 @st.composite
 def kp_case_st(draw):
     N = [draw(st.sampled_from([1, 3, 5, 9])) for _ in range(3)]
@@ -194,7 +200,7 @@ def kp_case_st(draw):
     c.update(syskind="kp", nw=draw(st.integers(1, 3)),
              alphas=draw(st.lists(st.sampled_from(KP_ALPHAS[1:]), min_size=1, max_size=5, unique=True)),
              rs=draw(st.integers(0, 2 ** 32)), cart=draw(st.booleans()),
-             lat=draw(st.one_of(st.none(), bgrid.wbsys.lattice_st())), kmax=draw(st.sampled_from([0.5, 1.0, 2.0])),
+             lat=draw(st.one_of(st.none(), bgrid.wbsys.lattice_st(kinds=KP_LATTICES))), kmax=draw(st.sampled_from([0.5, 1.0, 2.0])),
              calcs=draw(calcs_st("kp")))
     c["ibands"] = None if c["ibands"] in ("last", "all_rev") else c["ibands"]
     return c
